@@ -314,6 +314,9 @@ class Field(Operator):
                 new_shape[self._domain.axes[ind][0]:
                           self._domain.axes[ind][-1]+1] = wgt.shape
                 wgt = wgt.reshape(new_shape)
+                if not np.issubdtype(aout.dtype, np.inexact):
+                    # integer values: the volume factors are floats
+                    aout = aout.astype(np.float64)
                 aout *= wgt**power
         fct = fct**power
         if fct != 1.:
